@@ -1427,7 +1427,7 @@ class Scheduler:
         if promise_expr:
             pending_promise, expr2 = promise_expr
 
-            def callback(result):
+            def copy_bookkeeping():
                 # Copy the evaluation bookkeeping from the completed expression `expr2`
                 # to our detected duplicate expression `expr`.
                 if isinstance(expr2, SchedulerExpression):
@@ -1440,9 +1440,18 @@ class Scheduler:
                     expr._upstreams = expr2._upstreams
                 else:
                     raise AssertionError(f"Unexpected expression: {expr2}")
+
+            def callback(result):
+                copy_bookkeeping()
                 return result
 
-            return pending_promise.then(callback)
+            def errback(error):
+                # A failed evaluation has bookkeeping too (the CallNode of the failed call), which
+                # a `catch` around the duplicate needs for the dataflow of the caught error.
+                copy_bookkeeping()
+                raise error
+
+            return pending_promise.then(callback, errback)
 
         # Implementation note: we have to store this promise on the expression provided.
         # This happens at the end of the function, so do not return early!
